@@ -349,6 +349,7 @@ def build_world(
     tot_gas=1,
     s1_tot=1,
     s1_g=0,
+    s1_memb=0,
     r0_zero=False,
     sim_time=None,
     dt=None,
@@ -419,7 +420,7 @@ def build_world(
     if price_l2 is not None:
         s0_state = s0_state.set("LEVEL_2", s0_state["LEVEL_2"]._replace(price_per_kwh=price_l2))
     s0 = replace(S0, state=s0_state, membership=MEMBERSHIPS[s0_memb])
-    s1 = replace(S1, state=S1.state.set("LEVEL_2", cs(S1, "LEVEL_2")))
+    s1 = replace(S1, state=S1.state.set("LEVEL_2", cs(S1, "LEVEL_2")), membership=MEMBERSHIPS[s1_memb])
     b0 = replace(B0, total_stalls=stall_tot, available_stalls=stall_tot - stalls_used, membership=MEMBERSHIPS[b0_memb])
     sim = SIM0._replace(
         stations=SIM0.stations.set("s0", s0).set("s1", s1),
@@ -518,7 +519,10 @@ def instruction(ik: int, plug: str, vid="v0"):
     if ik == 14:
         return ChargeBaseInstruction(vid, "b1", plug)
     if ik == 15:
-        return DispatchPoolingTripInstruction(vid, (("r0", TripPhase.PICKUP), ("r0", TripPhase.DROPOFF)))
+        # a plan over two requests: r0 (membership varies with the scenario) and r1 (always public)
+        return DispatchPoolingTripInstruction(
+            vid, (("r0", TripPhase.PICKUP), ("r1", TripPhase.PICKUP), ("r0", TripPhase.DROPOFF), ("r1", TripPhase.DROPOFF))
+        )
     if ik == 16:
         return ChargeBaseInstruction(vid, "b2", plug)
     return None
